@@ -88,7 +88,7 @@ def shard_seed(seed: int, shard: int, salt: str = "") -> int:
 
 # --------------------------------------------------------------- hypothesis driver
 def hyp_search(strategy, body, acc: Acc, *, seed: int, max_examples: int,
-               known: set[str], max_buckets: int = 4, shrink_budget_s: float = 45.0):
+               known: set[str], max_buckets: int = 4, shrink_budget_s: float = 20.0):
     """Run `body(case, acc)` over `strategy`.
 
     body returns None or raises/returns a Violation.  Violations whose signature is
